@@ -24,31 +24,32 @@ import (
 
 // LogCapture is an imapserver.Logger that records lines.
 type LogCapture struct {
-	mu    sync.Mutex
-	lines []string
+	mu     sync.Mutex
+	lines  []string
+	panics []string
 }
 
 func (l *LogCapture) Printf(format string, args ...interface{}) {
+	line := fmt.Sprintf(format, args...)
 	l.mu.Lock()
-	l.lines = append(l.lines, fmt.Sprintf(format, args...))
+	l.lines = append(l.lines, line)
+	if strings.Contains(line, "panic") {
+		l.panics = append(l.panics, line)
+	}
 	l.mu.Unlock()
 }
 
 func (l *LogCapture) Lines() []string {
 	l.mu.Lock()
 	defer l.mu.Unlock()
-	return append([]string(nil), l.lines...)
+	return l.lines[:len(l.lines):len(l.lines)] // append-only: the prefix can be shared
 }
 
 // Panics returns logged lines that report a recovered panic.
 func (l *LogCapture) Panics() []string {
-	var out []string
-	for _, s := range l.Lines() {
-		if strings.Contains(s, "panic") {
-			out = append(out, s)
-		}
-	}
-	return out
+	l.mu.Lock()
+	defer l.mu.Unlock()
+	return l.panics[:len(l.panics):len(l.panics)]
 }
 
 // SessKind selects which optional interfaces the stub sessions expose.
